@@ -48,13 +48,13 @@ STUB = ['application shell that keeps and saves the viewer list (modelled on glu
 ASSUMPTIONS = ['a user may remove a dataset\'s own layer alone (its subset layers then stay until the subsets disappear); subset layers are not removed one by one', 'oracle only at quiescence', 'sampling, not proof']
 PROBES = ['viewer_before_data', 'subset_created_after_add', 'group_removed_with_viewer', 'data_removed_with_viewer', 'viewer_dropped_unclosed',
           'viewer_closed', 'picker_filter_flip', 'picker_no_choices', 'picker_component_removed', 'picker_data_removed', 'image_axis_set',
-          'image_reference_changed', 'image_reference_removed', 'restart_with_viewers', 'readd_in_delay_window', 'mpl_viewer', 'explicit_selection', 'data_layer_removed_alone', 'identifier_rebound_to_other_kind']
+          'image_reference_changed', 'image_reference_removed', 'restart_with_viewers', 'readd_in_delay_window', 'mpl_viewer', 'explicit_selection', 'data_layer_removed_alone', 'identifier_rebound_to_other_kind', 'image_subset_layer', 'profile_layer_added', 'profile_state_emptied']
 
 PROBES_THOROUGH_ONLY = ['mpl_viewer']
 
 WEIGHTS = {'new': 2, 'append': 3, 'remove': 1.5, 'new_group': 2.5, 'remove_group': 1.5, 'add_comp': 1.5, 'add_derived': 1, 'remove_comp': 1, 'rebind_comp': 0.8,
            'rename': 0.7, 'reorder': 0.5, 'label': 0.5, 'v_new': 2, 'v_add': 4, 'v_add_subset': 1, 'v_remove': 1, 'v_remove_data_layer': 1, 'v_close': 0.5, 'v_drop': 0.5,
-           'h_new': 2, 'h_append': 3, 'h_remove': 1, 'h_filter': 2, 'h_select': 1.5, 'h_drop': 0.4, 'i_new': 1, 'i_add': 2, 'i_remove': 0.7,
+           'h_new': 2, 'h_append': 3, 'h_remove': 1, 'h_filter': 2, 'h_select': 1.5, 'h_drop': 0.4, 'i_new': 1, 'i_add': 2, 'i_add_subset': 1, 'i_remove': 0.7, 'p_new': 0.6, 'p_add': 1.5, 'p_remove': 1,
            'i_set': 4, 'delay_open': 1, 'delay_close': 1.5, 'collect': 0.5, 'restart': 0.4}
 FLAGS = ['numeric', 'categorical', 'pixel_coord', 'world_coord', 'derived', 'none']
 
@@ -86,6 +86,21 @@ def generate(rng, cfg, guards):
     if not mpl and rng.chance(0.3):
         ops.append(['i_new'])
         ops.append(['i_add', 0, r8()])
+        if rng.chance(0.4):
+            # the life of a reference dataset: shown with a subset, its own layer removed first, its subset layer later
+            ops.append(['i_add', 0, r8()])
+            ops.append(['new_group', W.gen_recipe(rng, 1, ['ineq', 'range', 'mask', 'empty'])])
+            ops.append(['i_add_subset', 0, -2])
+            ops.append(['i_remove', 0, -2])
+            for _ in range(rng.randrange(0, 3)):
+                ops.append(['i_set', 0, rng.pick(['x_att', 'y_att']), r8()])
+            ops.append(['i_remove', 0, -3])
+    if not mpl and rng.chance(0.2):
+        # a profile viewer state that is emptied and given the same dataset again
+        ops.append(['p_new'])
+        ops.append(['p_add', 0, 0])
+        ops.append(['p_remove', 0, 0])
+        ops.append(['p_add', 0, rng.pick([0, 0, 1])])
     while len(ops) < n:
         k = rng.wpick(pairs)
         if k == 'new':
@@ -119,8 +134,10 @@ def generate(rng, cfg, guards):
             ops.append([k, r8(), r8()])
         elif k == 'i_new':
             ops.append([k])
-        elif k in ('i_add', 'i_remove'):
+        elif k in ('i_add', 'i_remove', 'i_add_subset', 'p_add', 'p_remove'):
             ops.append([k, r8(), r8()])
+        elif k == 'p_new':
+            ops.append([k])
         elif k == 'i_set':
             ops.append([k, r8(), rng.pick(['x_att', 'y_att', 'x_att_world', 'y_att_world', 'reference_data']), r8()])
         elif k == 'delay_open':
@@ -260,6 +277,7 @@ def _execute(case, res, tmp):
     viewers = []      # dict(v=viewer, given=[datasets], ambiguous=set(ids), kind=...)
     helpers = []      # dict(h=helper, state=..., kind=..., data=[...], flags=[...], dc=bool)
     images = []       # dict(state=ImageViewerState)
+    profiles = []     # dict(state=ProfileViewerState)
     nname = [0]
     mutated = [False]
     in_window = {'removed': set()}
@@ -519,6 +537,30 @@ def _execute(case, res, tmp):
                 del h
                 gc.collect()
                 res.fault('party_death')
+            # ---- profile viewer state (state level, like the image viewer state below)
+            elif k == 'p_new':
+                if len(profiles) >= 2:
+                    continue
+                from glue.viewers.profile.state import ProfileViewerState
+                profiles.append({'state': ProfileViewerState()})
+            elif k == 'p_add':
+                if not profiles:
+                    continue
+                from glue.viewers.profile.state import ProfileLayerState
+                st = profiles[op[1] % len(profiles)]['state']
+                d = w.pick_data(op[2])
+                if d is None or any(ls.layer is d for ls in st.layers):
+                    continue
+                st.layers.append(ProfileLayerState(viewer_state=st, layer=d))
+                res.probe('profile_layer_added')
+            elif k == 'p_remove':
+                if not profiles:
+                    continue
+                st = profiles[op[1] % len(profiles)]['state']
+                if st.layers:
+                    st.layers.remove(st.layers[op[2] % len(st.layers)])
+                    if not st.layers:
+                        res.probe('profile_state_emptied')
             # ---- image viewer state
             elif k == 'i_new':
                 if len(images) >= 2:
@@ -534,12 +576,36 @@ def _execute(case, res, tmp):
                 if d is None or d.ndim < 2 or any(ls.layer is d for ls in st.layers):
                     continue
                 st.layers.append(ImageLayerState(viewer_state=st, layer=d))
+            elif k == 'i_add_subset':
+                # a subset layer of a dataset that the image state shows (or showed: the data layer can be removed alone)
+                if not images:
+                    continue
+                from glue.viewers.image.state import ImageSubsetLayerState
+                st = images[op[1] % len(images)]['state']
+                shown = [ls.layer for ls in st.layers if isinstance(ls.layer, BaseData)]
+                subs = [s_ for d_ in shown for s_ in d_.subsets if not any(ls.layer is s_ for ls in st.layers)]
+                if op[2] == -2:
+                    subs = [s_ for s_ in subs if s_.data is st.reference_data]
+                if not subs:
+                    continue
+                st.layers.append(ImageSubsetLayerState(viewer_state=st, layer=subs[op[2] % len(subs)]))
+                res.probe('image_subset_layer')
             elif k == 'i_remove':
                 if not images:
                     continue
                 st = images[op[1] % len(images)]['state']
                 if st.layers:
                     ls = st.layers[op[2] % len(st.layers)]
+                    if op[2] == -2:         # the reference dataset's own layer
+                        cand = [x for x in st.layers if x.layer is st.reference_data]
+                        if not cand:
+                            continue
+                        ls = cand[0]
+                    elif op[2] == -3:       # a subset layer of the reference dataset
+                        cand = [x for x in st.layers if not isinstance(x.layer, BaseData) and x.layer.data is st.reference_data]
+                        if not cand:
+                            continue
+                        ls = cand[0]
                     if ls.layer is st.reference_data:
                         res.probe('image_reference_removed')
                     st.layers.remove(ls)
@@ -606,7 +672,7 @@ def _execute(case, res, tmp):
         if not w.quiescent():
             continue
         in_window['removed'].clear()
-        check(w, viewers, helpers, images, res, k, mutated[0])
+        check(w, viewers, helpers, images, res, k, mutated[0], profiles)
         for v in viewers:
             if v['ambiguous']:
                 # both outcomes were acceptable: from here on the model follows the one that happened
@@ -615,7 +681,7 @@ def _execute(case, res, tmp):
             v['ambiguous'].clear()
 
 
-def check(w, viewers, helpers, images, res, k, mutated):
+def check(w, viewers, helpers, images, res, k, mutated, profiles=()):
     from echo import ChoiceSeparator
     from glue.core.data import BaseData
     dc = w.dc
@@ -678,9 +744,32 @@ def check(w, viewers, helpers, images, res, k, mutated):
         elif not any(sel is c for c in exp):
             raise Violation('C18/picker-selection-not-offered/%s/%s' % (h['kind'], k), 'selection %s not among %s' % (
                 getattr(sel, 'label', sel), [getattr(c, 'label', c) for c in exp]))
+    for pr in profiles:
+        st = pr['state']
+        ds = []
+        for ls in st.layers:
+            d_ = ls.layer if isinstance(ls.layer, BaseData) else ls.layer.data
+            if not any(d_ is x for x in ds):
+                ds.append(d_)
+        ref = st.reference_data
+        res.nchecks += 1
+        if not ds:
+            if ref is not None:
+                raise Violation('C18/profile-reference-without-layers/%s' % k, 'reference data %s but no layer' % ref.label)
+            continue
+        if ref is None or not any(ref is d for d in ds):
+            raise Violation('C18/profile-reference-not-a-layer/%s' % k, 'reference data %s, layers %s' % (getattr(ref, 'label', None), [d.label for d in ds]))
+        axes = list(ref.pixel_component_ids) + list(ref.world_component_ids)
+        if st.x_att is None or not any(st.x_att is a for a in axes):
+            raise Violation('C18/profile-axis-not-of-reference/%s' % k, 'x_att %s, reference %s' % (getattr(st.x_att, 'label', None), ref.label))
     for im in images:
         st = im['state']
-        ds = [ls.layer for ls in st.layers if isinstance(ls.layer, BaseData)]
+        # the datasets the state represents: through their own layer or through a layer of one of their subsets
+        ds = []
+        for ls in st.layers:
+            d_ = ls.layer if isinstance(ls.layer, BaseData) else ls.layer.data
+            if not any(d_ is x for x in ds):
+                ds.append(d_)
         ref = st.reference_data
         res.nchecks += 1
         res.fp(k, 'image', len(ds), ref.ndim if ref is not None else None, len(w.cms))
